@@ -90,7 +90,8 @@ func vxQueryPiece() (written string, empty, ok bool, transport string) {
 }
 
 // (a) accepted URIs have a known scheme, non-empty host, port 0..65535 with RFC defaults,
-//     and the transport of RFC 7064/7065; everything else is rejected.
+//
+//	and the transport of RFC 7064/7065; everything else is rejected.
 func vh_C17_parse() {
 	prefix, scheme := vxSchemePrefix()
 	hw, host := vxHostPiece()
